@@ -62,7 +62,9 @@ def build(run: Run):
     if not only:
         run.verify("analysis.AnalysisContext.shorten_code", "analysis.AnalysisContext.analyze", "analysis.Analyzer.analyze",
                    "analysis.AnalysisResults.severity", "analysis.AnalysisResults.to_dict", "analysis.AnalysisResults.detailed_results",
-                   "analysis.AnalysisResult.__init__", "analysis.check_safety")
+                   "analysis.AnalysisResult.__init__", "analysis.check_safety",
+                   # helpers whose contracts (no exception, no write, a value of the stated type) the analyses rely on at their call sites
+                   "analysis.DuplicateProtoAnalysis._get_suffix", "analysis.AnalysisResults.to_string")
     run.assumptions += [
         "'decompiles' is made precise as: the class invariant of Pickled holds and the AST is well-typed (ImportFrom.module and alias.name are str, "
         "names/imports/calls are lists) — the typed view in contracts/analyses.py",
